@@ -35,6 +35,13 @@ AllocResults == {"Exception:bad_alloc", "Exception:length_error"}
 (* result: [msg |-> "" | first failed check, cls |-> classification] *)
 R(msg, cls) == [msg |-> msg, cls |-> cls]
 
+(* what the format specification says about an input on which the reader died: part of the message, *)
+(* so that a known finding can be identified by the situation and not by a stack trace                 *)
+CrashContext(P, tc, failed) ==
+  IF failed THEN "stream-failure"
+  ELSE IF P.ok THEN (IF tc /\ ~TopoCheckOK(P) THEN "valid-file-mesh-fails-topology-check" ELSE "valid-file")
+  ELSE "invalid-file:" \o P.why
+
 (* ------------------------------- OVMB ---------------------------------- *)
 OvmbWrite(ln) ==
   LET m == ln.mesh
@@ -68,7 +75,7 @@ OvmbRead(ln) ==
              \o (IF ok THEN "|accepted" ELSE "|rejected")
   IN
   IF ln.res \in {"Crash", "Timeout"} THEN
-       (IF Want("C07") THEN R("C07:" \o ln.res, cls) ELSE R("", cls))
+       (IF Want("C07") THEN R("C07:" \o ln.res \o ":" \o CrashContext(P, ln.tc, failed), cls) ELSE R("", cls))
   ELSE IF Want("C07") /\ ~ok /\ ln.res \notin ErrorResults THEN R("C07:UnexpectedResult:" \o ln.res, cls)
   ELSE IF Want("C07") /\ ln.res \in AllocResults /\ ~DeclaresLargeSize(ln.bytes) THEN R("C07:AllocationFailureWithoutLargeField", cls)
   ELSE IF Want("C07") /\ ok /\ ~WellFormedMesh(ln.mesh) THEN R("C07:NotWellFormed", cls)
@@ -127,7 +134,10 @@ AsciiRead(ln) ==
   LET ok == ln.res = "Ok"
       cls == "ascii|" \o (IF ok THEN "accepted" ELSE "rejected")
   IN
-  IF ln.res \in {"Crash", "Timeout"} THEN (IF Want("C07") THEN R("C07:" \o ln.res, cls) ELSE R("", cls))
+  IF ln.res \in {"Crash", "Timeout"} THEN
+       (IF Want("C07") THEN R("C07:" \o ln.res \o ":ascii:" \o (LET A == AsciiParse(ln.bytes) IN
+                                IF A.ok THEN (IF ln.tc /\ ~TopoCheckOK(A) THEN "valid-file-mesh-fails-topology-check" ELSE "valid-file")
+                                ELSE "invalid-file:" \o A.why), cls) ELSE R("", cls))
   ELSE IF Want("C07") /\ ~ok /\ ln.res \notin ErrorResults THEN R("C07:UnexpectedResult:" \o ln.res, cls)
   ELSE IF Want("C07") /\ ln.res \in AllocResults /\ ~AsciiDeclaresLargeSize(ln.bytes) THEN R("C07:AllocationFailureWithoutLargeField", cls)
   ELSE IF Want("C07") /\ ok /\ ~WellFormedMesh(ln.mesh) THEN R("C07:NotWellFormed", cls)
